@@ -34,7 +34,8 @@ def run(rep):
     owners, res = rt_common.run_runtime(rep, PID, "wf_C20",
         ["fun (A V : Type) sem sem_slf dv => @C20_loud A V sem sem_slf dv {i} {w}",
          "fun (A V : Type) sem sem_slf dv => @C20_no_fabrication A V sem sem_slf dv {i} {w}",
-         "fun (A V : Type) sem sem_slf dv => @C20_no_hang A V sem sem_slf dv {i} {w} (eq_refl true <: r_drain (elab {i}) = true)"],
+         "fun (A V : Type) sem sem_slf dv => @C20_no_hang A V sem sem_slf dv {i} {w} (eq_refl true <: r_drain (elab {i}) = true)",
+         "fun (A V : Type) sem sem_slf dv (H : r_stop_first (elab {i}) = true) => @C20_blocked_released_by_stop A V sem sem_slf dv {i} {w} H"],
         rt_common.std_configs(rng, rep.tier) + generic_only_configs(),
         dfs=("(bad_c20 {m})", "true"), dfs_when=lambda r: r["drain"] != "true",
         search="c20_search", search_what="client 0 makes a method panic, clients 1 and 2 then call every method (Runtime/Explore.v faulted); anomalies: 1 completed without execution and without panic, 2 fabricated value, 3 caller still inside a call at the end; dfs monitor: a call completed silently, or a caller inside a call has no enabled step although the actor is dead",
